@@ -174,7 +174,7 @@ func sweep(fs afero.Fs, explicit map[string]bool) string {
 		}
 		perm := "-"
 		if explicit[p] {
-			perm = fmt.Sprintf("%o", fi.Mode().Perm())
+			perm = fmt.Sprintf("%o", uint32(fi.Mode()&(os.ModePerm|os.ModeSticky|os.ModeSetuid|os.ModeSetgid)))
 		}
 		if fi.IsDir() {
 			l, err := afero.ReadDir(fs, p)
